@@ -31,6 +31,8 @@ pub struct Scn {
     pub horizon: u64,
     /// tags of the properties whose oracles are meaningful here
     pub tags: &'static [&'static str],
+    /// deviations allowed at yield / spin-marker points on top of the bound
+    pub extra_yield: u32,
 }
 
 impl Scn {
@@ -46,6 +48,7 @@ impl Scn {
             hang_prop: "C08",
             horizon: 20_000,
             tags: &[],
+            extra_yield: 0,
         }
     }
 }
